@@ -1,5 +1,5 @@
 """C13 - path operations compose like a path algebra (decided part: encoding and flow)."""
-from ..rules import flow
+from ..rules import flow, order
 from ..rules import shape_rules as sr
 from ..rules.kindrules import k1, k2_k3, k_mix, k_req, make_kinds
 from ..shape import Shapes
@@ -24,6 +24,7 @@ def run(ctx):
     k_mix(ctx, K)
     flow.f1(ctx, PATH_METHODS)
     same_helper(ctx)
+    order.flag_accumulates(ctx)     # joinpath(a, b) == joinpath(a).joinpath(b): every argument's dots are seen
     m = ctx.model
     fs = [m.func(f"_url.URL.{n}") for n in PATH_METHODS + ["raw_parts", "raw_name", "raw_suffix", "raw_suffixes", "name", "parts", "suffix", "suffixes"]]
     sr.sh1(ctx, Shapes(m), fs, floor=8)
